@@ -69,6 +69,63 @@ def bytess : List Val → Option (List Nat)
 def slice (off len : Nat) (xs : List Nat) : Option (List Nat) :=
   if off < xs.length ∧ off + len ≤ xs.length then some ((xs.drop off).take len) else none
 
+/-- EDIV: (type of the quotient, type of the remainder) -/
+def edivTy : Ty → Ty → Option (Ty × Ty)
+  | .nat, .nat => some (.nat, .nat)
+  | .nat, .int | .int, .nat | .int, .int => some (.int, .nat)
+  | .mutez, .nat => some (.mutez, .mutez)
+  | .mutez, .mutez => some (.nat, .mutez)
+  | _, _ => none
+
+/-- AND of an `int` with a `nat`: the int is read in two's complement (`-(m+1)` has exactly the bits `m` lacks) -/
+def andIntNat (a : Int) (b : Nat) : Nat :=
+  match a with
+  | .ofNat m => m &&& b
+  | .negSucc m => b - (m &&& b)
+
+/-- EDIV — Euclidean division: `a = q * b + r`, `0 ≤ r < |b|` (Lean's `/` and `%` on `Int`); `None` on division by zero -/
+def edivV : Val → Val → Res Val
+  | .num ta x, .num tb y =>
+    match edivTy ta tb with
+    | some (qt, rt) =>
+      if y = 0 then .ok (.none (.pair qt rt))
+      else (numOk qt (x / y)).bind fun q => (numOk rt (x % y)).bind fun r => .ok (.some (.pair q r))
+    | none => .err
+  | _, _ => .err
+
+/-- LSL / LSR: shifts of naturals by at most 256 bits (a larger shift is a runtime failure) -/
+def lslV : Val → Val → Res Val
+  | .num .nat x, .num .nat n => if 0 ≤ n ∧ n ≤ 256 then numOk .nat (x * 2 ^ n.toNat) else .err
+  | _, _ => .err
+
+def lsrV : Val → Val → Res Val
+  | .num .nat x, .num .nat n => if 0 ≤ n ∧ n ≤ 256 then numOk .nat (x / 2 ^ n.toNat) else .err
+  | _, _ => .err
+
+def subMutezV : Val → Val → Res Val
+  | .num .mutez x, .num .mutez y =>
+    if x < y then .ok (.none .mutez) else (numOk .mutez (x - y)).bind fun r => .ok (.some r)
+  | _, _ => .err
+
+/-- AND / OR / XOR: booleans, and bitwise on naturals (a `nat` holds a natural number: nothing is prescribed for
+other contents); AND also takes an `int` on either side, read in two's complement -/
+def andV : Val → Val → Res Val
+  | .bool x, .bool y => .ok (.bool (x && y))
+  | .num .nat x, .num .nat y => if 0 ≤ x ∧ 0 ≤ y then .ok (.num .nat (Int.ofNat (x.toNat &&& y.toNat))) else .err
+  | .num .int x, .num .nat y => if 0 ≤ y then .ok (.num .nat (Int.ofNat (andIntNat x y.toNat))) else .err
+  | .num .nat x, .num .int y => if 0 ≤ x then .ok (.num .nat (Int.ofNat (andIntNat y x.toNat))) else .err
+  | _, _ => .err
+
+def orV : Val → Val → Res Val
+  | .bool x, .bool y => .ok (.bool (x || y))
+  | .num .nat x, .num .nat y => if 0 ≤ x ∧ 0 ≤ y then .ok (.num .nat (Int.ofNat (x.toNat ||| y.toNat))) else .err
+  | _, _ => .err
+
+def xorV : Val → Val → Res Val
+  | .bool x, .bool y => .ok (.bool (xor x y))
+  | .num .nat x, .num .nat y => if 0 ≤ x ∧ 0 ≤ y then .ok (.num .nat (Int.ofNat (x.toNat ^^^ y.toNat))) else .err
+  | _, _ => .err
+
 /-- `PAIR n` (n ≥ 2): `PAIR 2 = PAIR`, `PAIR (n+1) = DIP { PAIR n } ; PAIR` — folds the top `n` elements into a right comb -/
 def pairN : Nat → List Val → Option (Val × List Val)
   | 2, a :: b :: st => some (.pair a b, st)
@@ -160,6 +217,10 @@ def step (env : Env) : Instr → List Val → Res (List Val)
     match mulTy ta tb with
     | some t => (numOk t (x * y)).bind fun r => .ok (r :: st)
     | none => .err
+  | .EDIV, a :: b :: st => (edivV a b).bind fun r => .ok (r :: st)
+  | .LSL, a :: b :: st => (lslV a b).bind fun r => .ok (r :: st)
+  | .LSR, a :: b :: st => (lsrV a b).bind fun r => .ok (r :: st)
+  | .SUB_MUTEZ, a :: b :: st => (subMutezV a b).bind fun r => .ok (r :: st)
   | .NEG, .num .int x :: st => .ok (.num .int (-x) :: st)
   | .NEG, .num .nat x :: st => .ok (.num .int (-x) :: st)
   | .ABS, .num .int x :: st => .ok (.num .nat (Int.ofNat x.natAbs) :: st)
@@ -180,9 +241,9 @@ def step (env : Env) : Instr → List Val → Res (List Val)
   | .NOT, .bool x :: st => .ok (.bool (!x) :: st)
   | .NOT, .num .nat x :: st => .ok (.num .int (-x - 1) :: st)     -- two's complement
   | .NOT, .num .int x :: st => .ok (.num .int (-x - 1) :: st)
-  | .AND, .bool x :: .bool y :: st => .ok (.bool (x && y) :: st)
-  | .OR, .bool x :: .bool y :: st => .ok (.bool (x || y) :: st)
-  | .XOR, .bool x :: .bool y :: st => .ok (.bool (xor x y) :: st)
+  | .AND, a :: b :: st => (andV a b).bind fun r => .ok (r :: st)
+  | .OR, a :: b :: st => (orV a b).bind fun r => .ok (r :: st)
+  | .XOR, a :: b :: st => (xorV a b).bind fun r => .ok (r :: st)
   | .CONCAT, .str x :: .str y :: st => .ok (.str (x ++ y) :: st)
   | .CONCAT, .bytes x :: .bytes y :: st => .ok (.bytes (x ++ y) :: st)
   | .CONCAT, .list .string xs :: st =>
